@@ -401,7 +401,15 @@ func typeSubtype(v *rc.Node) bool {
 	}
 	c := v.Content
 	ws := func(b byte) bool { return b == ' ' || (b >= 9 && b <= 13) }
-	return !ws(c[0]) && !ws(c[len(c)-1])
+	if ws(c[0]) || ws(c[len(c)-1]) {
+		return false
+	}
+	// "type/subtype": the media type proper ends at the first ";" (parameters may hold a "/" of their own, F20); it
+	// has a "/" with something on either side (F24). Which characters a name may hold is not looked at.
+	mt, _, _ := strings.Cut(string(c), ";")
+	mt = strings.TrimRight(mt, " \t")
+	i := strings.Index(mt, "/")
+	return i > 0 && i < len(mt)-1
 }
 
 // wfLayer applies the section 3.1 rules to one layer (either bucket may be nil).
